@@ -1055,9 +1055,10 @@ def flow_query():
     m = {"stale": []}
     m["loops"] = []
     for it in items(out["loops"]):
-        line, meth, abc = it.split(":")
-        m["loops"].append({"line": int(line), "method": dec_str(meth), "consumes": abc[0] == "1", "ok_contract": abc[1] == "1",
-                           "ok_no_assumption": abc[2] == "1"})
+        lid, line, meth, abc = it.split(":")
+        # `id` (method#ordinal-within-method) is the key; `line` is the source line at translation time, diagnostic only
+        m["loops"].append({"id": dec_str(lid), "line": int(line), "method": dec_str(meth), "consumes": abc[0] == "1",
+                           "ok_contract": abc[1] == "1", "ok_no_assumption": abc[2] == "1", "exempted": abc[3] == "1"})
     m["maxnest"] = int(out["maxnest"])
     m["consuming"] = [dec_str(x) for x in items(out["consuming"])]
     m["total"] = [dec_str(x) for x in items(out["total"])]
@@ -1599,8 +1600,10 @@ def _run(ctx):
             ctx.extra["flow_model"] = {"used": False, "reason": "driver build/bin/flow does not answer %s (stale build)" % fm["stale"]}
         else:
             summ = {"used": True, "loops": len(fm["loops"]), "maxnest": fm["maxnest"],
-                    "loops_needing_call_contract": [(l["line"], l["method"]) for l in fm["loops"] if l["ok_contract"] and not l["ok_no_assumption"]],
-                    "loops_not_ok": [(l["line"], l["method"]) for l in fm["loops"] if not l["ok_contract"]],
+                    "loops_needing_call_contract": [l["id"] for l in fm["loops"] if l["ok_contract"] and not l["ok_no_assumption"]],
+                    "loops_exempted_in_model(loops_needing_contract)": [l["id"] for l in fm["loops"] if l["exempted"]],
+                    "loops_not_ok": [l["id"] for l in fm["loops"] if not l["ok_contract"]],
+                    "loop_lines_at_translation(diagnostic)": {l["id"]: l["line"] for l in fm["loops"]},
                     "call_contract_methods": fm["consuming"], "total_table_size": len(fm["total"]), "raising_table_size": len(fm["raising"]),
                     "benign": fm["benign"], "predicted_escapes": {t: fm["escapes"][t] for t in FLOW_TOOLS}, "known_escapes": fm["known"],
                     "sites": {t: len(fm["sites"][t]) for t in FLOW_TOOLS}}
